@@ -72,12 +72,13 @@ def stepModel (line : String) : String :=
         let (o, n) := Mig.migrate src.toList
         hexBytes (String.ofList o).toUTF8.toList ++ "\t" ++ toString n
   | ["cel", field, ast] =>
-    -- the condition text the translator model emits for this checked AST ("unmodelled" outside its coverage)
+    -- the condition text the translator model emits for this checked AST ("unmodelled" outside its coverage,
+    -- "refused" when the model covers the expression and the translator has no rendering for one of its calls)
     match (readSx ast).bind sxCel with
     | none => "bad-op"
     | some e =>
       match Cel.condition field e with
-      | none => "unmodelled"
+      | none => if Cel.refuses field e then "refused" else "unmodelled"
       | some c => hexBytes c.toUTF8.toList
   | ["mw", variant, dec, kind, hx, ca, de] =>
     -- one request as observed by the oracle: did a fresh decode succeed; what does validation of the freshly decoded value return
